@@ -30,4 +30,12 @@ def run(tier):
         cr.bounded_check(run_template_scope, f"template-lemmas-{'opt' if optimize else 'noopt'}", "iteration", progs,
                          f"{len(progs)} programs: cover + base + step lemmas (history) / round-trip lemma (iteration) by SMT over the S2 tick function; optimize={optimize}",
                          cr.known, optimize=optimize)
+    from bounded import pipeline
+    from bounded.contract_enum import run_contract_enum
+    from contracts import c12
+    pipeline.ensure_repo()
+    bargs = c12.bidi_arg_sets()
+    cr.bounded_check(run_contract_enum, "bidirectional-pairs-box", c12.bidi, bargs,
+                     f"{len(bargs)} edge sets of up to 3 edges over 3 entities: a feedback self-loop is its own reverse and is routed directly "
+                     "(contract evaluated on the real ConnectionPlanner._find_bidirectional_pairs)")
     return cr.finish()
